@@ -35,6 +35,11 @@ Local Open Scope N_scope.
 Theorem C06_panic_sites_all_reviewed : forall s, In s GenPanicSites.sites -> reviewed s = true.
 Proof. exact panic_sites_universal. Qed.
 
+(* the reviewed verdicts (guards, bounds, "send path only") were read off the exact text of the owning functions:
+   every such function (Gen.fn_prints: 60 bits of SHA-256 of its comment-free body) is unchanged since its review *)
+Theorem C06_panic_owner_functions_unchanged : forall q, In q GenPanicSites.fn_prints -> print_reviewed q = true.
+Proof. exact panic_owner_functions_universal. Qed.
+
 Theorem C06_panic_review_no_duplicate_rows : nodup_rows PanicReview.table = true.
 Proof. exact panic_review_no_duplicate_rows. Qed.
 
@@ -52,6 +57,17 @@ Proof. exact must_complete_monotone. Qed.
 
 Theorem C06_close_completes_everything : forall evs t, must_complete (evs ++ [ELost]) t = true.
 Proof. exact close_completes_everything. Qed.
+
+(* with credit withheld (back-pressure): the oracle is still monotone, connection loss ends every wait, and the
+   peer's STOP_SENDING ends the wait of a send call on that stream whatever the credit *)
+Theorem C06_must_complete_backpressure_monotone : forall bp evs evs' t,
+  must_complete_bp bp evs t = true -> must_complete_bp bp (evs ++ evs') t = true.
+Proof. exact must_complete_bp_monotone. Qed.
+Theorem C06_close_completes_everything_backpressure : forall bp evs t, must_complete_bp bp (evs ++ [ELost]) t = true.
+Proof. exact close_completes_everything_bp. Qed.
+Theorem C06_stop_sending_completes_send : forall bp evs evs' id,
+  must_complete_bp bp (evs ++ EStop id :: evs') (WSend id) = true.
+Proof. exact stop_sending_completes_send. Qed.
 
 Example C06_must_complete_inhabited :
   must_complete [EOpen 0; EChunk 0; EFin 0; EChunk 0] (WStream 0) = true /\
@@ -257,15 +273,27 @@ Theorem C06_progress_driver_woken_on_error :
     quiescent w -> woken w = true.
 Proof. exact (fun k w => parked_driver_woken gen_cfg k w gen_facts_ok). Qed.
 
-(* The matching fact for whole requests - every request hit by one stream-scoped fault completes once its peer's
-   events have arrived, in any interleaving - is C07_completes (Properties/C07.v, Model/StreamFaults.v); it is not
-   re-exported here so that this file does not depend on C07's proof scripts. *)
+From H3V Require Import Gen.GenStreamFaults Spec.StreamScoped Model.StreamFaults Proofs.StreamFaultsLemmas Proofs.StreamFaultsProofs.
+
+(* every request whose peer script is a healthy message or a healthy prefix hit by one stream-scoped fault
+   (FIN early, RESET, STOP_SENDING, malformed message, oversized header ...) completes with a value or an error
+   once the peer's events have all arrived and its task is polled, whatever the other requests and the driver
+   did before, in any interleaving.  Proved by C07 over Model/StreamFaults.v (= C07_completes). *)
+Theorem C06_progress_requests_complete :
+  forall l stops L G sched j c S,
+    in_class l -> Forall (action_ok stops L G) sched -> nth_error l j = Some (c, S) ->
+    exists r, nth_error (reqs (run (sched ++ completion j (length S)) (init_world l))) j = Some r /\ res r <> None.
+Proof. exact completes. Qed.
 
 Print Assumptions C06_panic_sites_all_reviewed.
+Print Assumptions C06_panic_owner_functions_unchanged.
 Print Assumptions C06_panic_review_no_duplicate_rows.
 Print Assumptions C06_terminal_is_sticky.
 Print Assumptions C06_must_complete_monotone.
 Print Assumptions C06_close_completes_everything.
+Print Assumptions C06_must_complete_backpressure_monotone.
+Print Assumptions C06_close_completes_everything_backpressure.
+Print Assumptions C06_stop_sending_completes_send.
 Print Assumptions C06_no_panic_varint.
 Print Assumptions C06_no_panic_datagram.
 Print Assumptions C06_no_panic_prefix_int.
@@ -290,6 +318,7 @@ Print Assumptions C06_no_panic_accept_recv.
 Print Assumptions C06_no_panic_receive_path_composed.
 Print Assumptions C06_progress_accept_recv.
 Print Assumptions C06_progress_driver_woken_on_error.
+Print Assumptions C06_progress_requests_complete.
 Print Assumptions C06_progress_frame_stream_next.
 Print Assumptions C06_progress_frame_stream_data.
 Print Assumptions C06_progress_frame_stream_all_histories.
